@@ -119,3 +119,50 @@ Definition dev_step (fl : dflags) (st : dstate) (nm : Z * dmsg) : dstate :=
 Definition dev_run (fl : dflags) (ms : list (Z * dmsg)) : dstate := fold_left (dev_step fl) ms ds0.
 
 Definition decodable (m : dmsg) : bool := match m with MUndecodable => false | _ => true end.
+
+(* ------------------------------------------------------------------ discovery: probe() after its session
+   (internal/driver/discover.go 346-456).  probe runs an exchange goroutine (GetReaderConfig, then
+   GetReaderCapabilities through SendFor, then Shutdown — or Close if that fails) next to
+   Connect; when Connect returns ErrClientClosed it builds the discovery record from the two
+   replies.  It runs in autoDiscover's ipWorker goroutines: a panic ends the service.
+
+     session end   SeClosedByUs: Connect returned ErrClientClosed (the goroutine shut the client
+                   down or closed it); SeFailed: any other error — probe returns it
+     a reply       None = SendFor failed (ErrorMessage, failure status, undecodable, wrong type,
+                   beyond the buffering limit, no answer, ...): nothing was received in full;
+                   Some b = received, b = does it carry the parameter probe wants
+                   (Identification / GeneralDeviceCapabilities)
+
+   Flags: [by_pointer] the replies reach the building code as pointers that are nil when
+   nothing was received (false in the tree as found: two response VALUES shared with the
+   goroutine — not received = zero value = parameter nil); [config_nil_checked] /
+   [caps_nil_checked]: the pointer is tested before its field is read. *)
+Inductive session_end := SeClosedByUs | SeFailed.
+Record pflags := mkPFlags { by_pointer : bool; config_nil_checked : bool; caps_nil_checked : bool }.
+Definition pflags_as_found : pflags := mkPFlags false false false.
+Inductive probe_out :=
+| PoErr                       (* probe returns an error: no device discovered *)
+| PoInfo (caps_known : bool)  (* a discovery record; vendor/model known or "unknown" *)
+| PoPanic.                    (* nil pointer dereference in the ipWorker goroutine *)
+
+Definition probe_after (fl : pflags) (se : session_end) (config caps : option bool) : probe_out :=
+  match se with
+  | SeFailed => PoErr
+  | SeClosedByUs =>
+      (* if readerCaps.GeneralDeviceCapabilities == nil { unknown } else { ... } *)
+      let caps_step : option bool :=
+        match caps with
+        | Some b => Some b
+        | None => if by_pointer fl && negb (caps_nil_checked fl) then None else Some false
+        end in
+      match caps_step with
+      | None => PoPanic
+      | Some known =>
+          (* if readerConfig.Identification == nil { return error } *)
+          match config with
+          | Some true => PoInfo known
+          | Some false => PoErr
+          | None => if by_pointer fl && negb (config_nil_checked fl) then PoPanic else PoErr
+          end
+      end
+  end.
